@@ -25,6 +25,8 @@ SPEC = dict(
          'Further seeds: a publications file with a large unknown record, request PDUs with integers beyond 32 bits; after every failed call the error trace is rendered through KSI_ERR_toString, the logger (two levels) and KSI_ERR_statusDump. '
          'A publications file of more than 65535 bytes (records repeated) is offered as it is to the entry point and its follow-ups (look-ups, refused serialization, verification, release). '
          'Seed: a publications file with a SHA2-512 publication record (longest rendering). '
+         'Seeds: a publications file record with three long references, a publication record with an empty reference string; rendering buffers of 1, 16, 400 and 1500 bytes. '
+         'Follow-ups: metadata getters through one uncleared variable; a publication record copied, the copy changed and released, the record rendered again; record searches by time and by record. '
          'Metadata fields of every link read through one receiving variable that is not cleared between the getters; seed with an empty publication reference string. '
          'A publication record of the file is copied, the copy released and two hashes created: the record renders as before.',
     bounds=dict(
